@@ -26,7 +26,8 @@ ASSUMPTIONS = [
     "Floats are compared within 8 ulp after the round trip (the parser is not correctly rounded, see C18).",
 ]
 REQUIRED_CLASSES = ["seq-len-79-81", "seq-len-159-161", "negative-int", "one-char-field", "append", "gzip", "stream", "empty-piece-between",
-                    "empty-piece-first", "int-near-power-of-ten", "empty-table", "pieces-from-reread", "pieces-from-reread-thinned", "concat-of-reread-pieces"]
+                    "empty-piece-first", "int-near-power-of-ten", "empty-table", "pieces-from-reread", "pieces-from-reread-thinned", "concat-of-reread-pieces",
+                    "pieces-sliced-from-the-table-already-written"]
 BOUNDS = {"quick": "150 (table, plan) pairs for each of 13 table types, up to 8 rows", "thorough": "3000 per type, up to 40 rows"}
 BUDGET_S = {"quick": 200, "thorough": 1500}
 
@@ -180,7 +181,7 @@ def plan_rows(rows, plan):
     return list(rows)
 
 
-def run_plan(tname, rows, plan, path, single=None):
+def run_plan(tname, rows, plan, path, single=None, table=None):
     """Write `rows` according to the plan; returns the decompressed file content.
     source 'constructed': every piece is a table built from values. source 'reread': the pieces are slices (optionally thinned by a
     boolean mask, i.e. non-contiguous selections) of the table obtained by reading the single-write file back lazily."""
@@ -202,6 +203,10 @@ def run_plan(tname, rows, plan, path, single=None):
             if plan.get("thin"):
                 t = t[np.array([(a + i) % 2 == 0 for i in range(b - a)], dtype=bool)]
             return t
+    elif plan.get("source") == "same-table":
+        # the pieces are slices of the very table object that the single write has already written once
+        def piece(a, b):
+            return table[a:b]
     else:
         def piece(a, b):
             return build_table(tname, rows[a:b])
@@ -247,6 +252,8 @@ def classify(case):
                 cl.append("one-char-field")
     if plan.get("gzip"):
         cl.append("gzip")
+    if plan.get("source") == "same-table":
+        cl.append("pieces-sliced-from-the-table-already-written")
     if plan.get("source") == "reread":
         cl.append("pieces-from-reread" + ("-thinned" if plan.get("thin") else ""))
         if plan["mode"] == "concat":
@@ -274,8 +281,9 @@ def check(case, stats=None):
     with tempfile.TemporaryDirectory(prefix="pbtc03") as d:
         single = os.path.join(d, "single" + suffix)
         try:
+            table = build_table(tname, rows)
             with bnp.open(single, "w", buffer_type=bt) as f:
-                f.write(build_table(tname, rows))
+                f.write(table)
             with open(single, "rb") as f:
                 data = f.read()
         except Exception as e:
@@ -284,6 +292,13 @@ def check(case, stats=None):
         exp = canonical_body(tname, rows)
         if body != exp:
             return [Failure(f"C03:not-canonical:{tname}", {"expected": exp[:400], "actual": body[:400]})]
+        # the table handed to the writer still holds the values it was built from
+        try:
+            diff = formats.first_row_diff(formats.table_rows(build_table(tname, rows)), formats.table_rows(table), 0)
+        except Exception as e:
+            return [Failure(f"C03:table-unreadable-after-writing:{tname}:{type(e).__name__}:{_where(e)}", {"error": repr(e)[:300]})]
+        if diff is not None:
+            return [Failure(f"C03:table-changed-by-writing:{tname}", diff)]
         # (b) round trip, eager and lazy
         if rows:
             want = expected_read_rows(tname, rows)
@@ -300,7 +315,7 @@ def check(case, stats=None):
         # (c) composition
         target = os.path.join(d, "plan" + suffix + (".gz" if plan.get("gzip") else ""))
         try:
-            got = run_plan(tname, rows, plan, target, single)
+            got = run_plan(tname, rows, plan, target, single, table)
         except Exception as e:
             return [Failure(f"C03:plan-raised:{plan['mode']}:{tname}:{type(e).__name__}:{_where(e)}", {"error": repr(e)[:300], "source": plan.get("source")})]
         if plan.get("source") == "reread":
@@ -379,6 +394,8 @@ def c03_case(draw, tname, max_rows):
     k = draw(st.integers(1 if n == 0 else 0, 4))
     pieces = [draw(st.integers(0, max(1, n))) for _ in range(k)]
     plan = {"pieces": pieces, "mode": draw(st.sampled_from(["writes", "writes", "stream", "append"])), "gzip": draw(st.booleans())}
+    if n >= 1 and draw(st.integers(0, 3)) == 0:
+        plan["source"] = "same-table"
     if n >= 2 and tname not in NO_REREAD and draw(st.integers(0, 2)) == 0:
         plan.update(source="reread", thin=draw(st.booleans()), mode=draw(st.sampled_from(["writes", "stream", "append", "concat", "concat"])))
     return {"type": tname, "rows": rows, "plan": plan}
